@@ -7,13 +7,12 @@ def hio(mode, trials, first=0, flavor="hooks", ncpu=None, timeout=300, extra=(),
                ncpu=ncpu, timeout=timeout, tag=tag or "h_io:%s:%s:%s:%d" % (mode, flavor, ncpu or 16, first))
 
 
-# Three scenario classes end a process on the unchanged tree (see the report / known findings):
-#   * a write waiting on a full pipe whose reader goes away never completes (EPOLLERR ignored): --pipe-hangup
-#   * two dispatch_read in flight on one descriptor: use-after-free in _dispatch_stream_handler: --conv-pair
-#   * EPOLLIN|EPOLLHUP race in the epoll backend ("Source finalized twice"), rare and not avoidable
-# The bulk jobs switch the first two off so that the rest of the scenario space is still explored in
-# the same run; dedicated jobs keep them on.
-BULK = ["--pipe-hangup=0", "--conv-pair=0"]
+# Three scenario classes used to end a process on the pinned tree (write on a full pipe whose reader goes
+# away: EPOLLERR ignored; two dispatch_read in flight on one descriptor: use-after-free in
+# _dispatch_stream_handler; EPOLLHUP race in the epoll backend: "Source finalized twice"). All three are
+# repaired in /repo (DESIGN 13.3 F12-F14), so the bulk jobs now keep every scenario class on; the
+# dedicated jobs stay as focused regressions.
+BULK = []
 
 
 def spec(tier):
@@ -41,7 +40,7 @@ def spec(tier):
     add("default", 1 if quick else 60, 80 if quick else 500, flavor="asan", extra=BULK, timeout=600 if quick else 1800)
     # dedicated jobs for the scenario classes excluded from the bulk
     jobs.append(hio("pipe-hangup", 10, first=0, timeout=240, tag="h_io:pipe-hangup:hooks"))
-    jobs.append(hio("conv", 60 if quick else 500, first=nxt[0], flavor="asan", timeout=600, extra=["--pipe-hangup=0"], tag="h_io:conv-pair:asan"))
+    jobs.append(hio("conv", 60 if quick else 500, first=nxt[0], flavor="asan", timeout=600, tag="h_io:conv-pair:asan"))
     if not quick:
         add("default", 20, 500, flavor="dbg", extra=BULK, timeout=1800)
         add("default", 10, 300, flavor="asan", ncpu=2, extra=BULK, timeout=1800)
